@@ -59,6 +59,10 @@ def xyz():
     return core.import_target()
 
 
+def cname(case):
+    return case.get("crop_name") or "c16"
+
+
 def crop_parent(case, root):
     """-> (directory that holds the crop, parent_dir argument, cwd to use)"""
     style = case.get("parent_style", "abs")
@@ -77,9 +81,9 @@ def build(x, top, case, logfile):
     os.makedirs(root, exist_ok=True)
     # (the harness process sits in ``top`` while the crop is created and the
     # script generated, like a user in their project directory)
-    crop = x.Crop(fn=fn, name="c16", parent_dir=parg, num_batches=B)
+    crop = x.Crop(fn=fn, name=cname(case), parent_dir=parg, num_batches=B)
     crop.sow_combos({"a": list(range(N))}, verbosity=0)
-    B = len(crops.batch_ids(root, "c16"))
+    B = len(crops.batch_ids(root, cname(case)))
     pre = sorted({i % B + 1 for i in case["pre_grown"]})
     if len(pre) == B:
         pre = pre[:-1]
@@ -88,7 +92,7 @@ def build(x, top, case, logfile):
     if logfile and os.path.exists(logfile):
         os.remove(logfile)
     batch_vals = {i: [models.plain(kw["a"]) for kw in
-                      crops.read_batch(root, "c16", i)]
+                      crops.read_batch(root, cname(case), i)]
                   for i in range(1, B + 1)}
     return crop, fn, B, pre, batch_vals
 
@@ -312,7 +316,8 @@ def _run_executed(x, case, root):
         if case.get("cli"):
             tasks = [None]
             cmd = [os.path.join(os.path.dirname(sys.executable),
-                                "xyzpy-grow"), "c16", "--parent-dir", root]
+                                "xyzpy-grow"), cname(case), "--parent-dir",
+                   root]
             if case.get("parent_style") == "rel":
                 cmd[-1] = crop_parent(case, top)[1]
             if case["opts"].get("num_workers"):
@@ -322,13 +327,24 @@ def _run_executed(x, case, root):
         else:
             script = gen_script(x, crop, case, top, ids)
             spath, tasks = static_checks(case, script, ids, top)
+            if case.get("late_grow") and case["mode"] == "single" and \
+                    case["batch_ids"] is None and len(ids) >= 2:
+                # between writing the script and the job starting somebody
+                # grows one of the batches: a single-mode job without explicit
+                # ids works out what is missing when it RUNS (so that it can
+                # be restarted)
+                with core.quiet():
+                    crop.grow(ids[0])
+                if os.path.exists(logfile):
+                    os.remove(logfile)
+                ids = ids[1:]
             runs = []
             for t in tasks:
                 env = child_env(top)
                 if t is not None:
                     env[VAR[case["scheduler"]]] = str(t)
                 runs.append((["bash", spath], env))
-        before = set(crops.result_ids(root, "c16"))
+        before = set(crops.result_ids(root, cname(case)))
         for cmd, env in runs:
             p = subprocess.run(cmd, env=env, capture_output=True, text=True,
                                cwd=top, timeout=600)
@@ -343,7 +359,7 @@ def _run_executed(x, case, root):
                 require("XYZPY script starting" in p.stdout and
                         "XYZPY script finished" in p.stdout, "markers",
                         p.stdout[-400:])
-        after = set(crops.result_ids(root, "c16"))
+        after = set(crops.result_ids(root, cname(case)))
         require(after - before == set(ids) - before and
                 set(ids) <= after, "grew-wrong-batches",
                 f"intended {ids} (already grown {sorted(before)}): new result "
@@ -351,7 +367,7 @@ def _run_executed(x, case, root):
         # each new result file holds its batch's results, in the batch's order
         import pickle
         for i in sorted(after - before):
-            with open(crops.result_path(root, "c16", i), "rb") as f:
+            with open(crops.result_path(root, cname(case), i), "rb") as f:
                 res = pickle.load(f)
             want_res = tuple(models.result_of("int", {"a": a})
                              for a in batch_vals[i])
@@ -366,7 +382,7 @@ def _run_executed(x, case, root):
                 f"{dict(want)}")
         if after == set(range(1, B + 1)):
             with under_test("reap after scripts"):
-                c2 = x.Crop(name="c16", parent_dir=root)
+                c2 = x.Crop(name=cname(case), parent_dir=root)
                 require(c2.is_ready_to_reap(), "not-ready",
                         "all results present but crop not ready")
                 got = c2.reap()
@@ -441,6 +457,10 @@ def strategy(draw, executed=False):
         if "num_workers" in case["opts"] and draw(st.booleans()):
             case["opts"].pop("num_workers")
         case["cli"] = draw(st.sampled_from([False, False, False, True]))
+        case["late_grow"] = draw(st.booleans())
+        if case["cli"]:
+            case["crop_name"] = draw(st.sampled_from(
+                ["c16", "zeta", "xy-sweep", "yield_curve", ".hidden"]))
         if draw(st.sampled_from([False, True])) and not case["cli"]:
             # workers inside one task: batches of several settings whose
             # first ones finish last
